@@ -3,9 +3,12 @@
 #![allow(dead_code)]
 mod alloc;
 mod c03;
+mod c04;
 mod c05;
 mod c06;
 mod c07;
+mod c15;
+mod redir;
 mod common;
 mod e1;
 mod refs;
@@ -78,9 +81,13 @@ const CHECKS: &[(&str, CheckFn)] = &[
     ("C01", wirechecks::c01),
     ("C02", wirechecks::c02),
     ("C03", c03::c03),
+    ("C04", c04::c04),
     ("C05", c05::c05),
     ("C06", c06::c06),
     ("C07", c07::c07),
+    ("C09", redir::c09),
+    ("C10", redir::c10),
+    ("C15", c15::c15),
     ("C19", wirechecks::c19),
 ];
 
@@ -88,8 +95,12 @@ const CHECKS: &[(&str, CheckFn)] = &[
 const REPLAYERS: &[(&str, ReplayFn)] = &[
     ("e1", wirechecks::replay_e1),
     ("c03", c03::replay),
+    ("c04", c04::replay),
     ("c05", c05::replay),
     ("c06", c06::replay),
     ("c06-ae", c06::replay),
     ("c07", c07::replay),
+    ("c09", redir::replay09),
+    ("c10", redir::replay10),
+    ("c15", c15::replay),
 ];
